@@ -141,7 +141,7 @@ func c20pair(c *fw.Check, a, b string) {
 }
 
 func runC20(c *fw.Check) {
-	c.Rule = "natsort.Less on ALL ordered pairs of all byte strings of length <=L over {0,1,9,a,b,0x00,0xFF} (irreflexive, asymmetric, total, equal to an independent token-wise reference comparator); transitivity decided exactly by sorting the whole set and checking every pair i<j against the sorted position; numeric-run law on all (prefix,d1,d2,suffix); then ALL permutations of every dependency-closed subset (size<=K) of a pool of top-level definitions through asm.ParseString+String against an expected text built with the reference comparator. PLUS modules whose type, comdat and named-metadata sections hold ALL names of length <=2 (thorough 3) over {0,1,9,a,B,$,space,.,-}: after parse+print the names decoded from the printed lines and the parsed module's lists are in reference order. distinct = distinct pairs / permuted inputs / names."
+	c.Rule = "natsort.Less on ALL ordered pairs of all byte strings of length <=L over {0,1,9,a,b,0x00,0xFF} (irreflexive, asymmetric, total, equal to an independent token-wise reference comparator); transitivity decided exactly by sorting the whole set and checking every pair i<j against the sorted position; numeric-run law on all (prefix,d1,d2,suffix); then ALL permutations of every dependency-closed subset (size<=K) of a pool of top-level definitions through asm.ParseString+String against an expected text built with the reference comparator. PLUS modules whose type, comdat and named-metadata sections hold ALL names of length <=2 (thorough 3) over {0,1,9,a,B,$,space,.,-}: after parse+print the names decoded from the printed lines and the parsed module's lists are in reference order. PLUS every subset (size <=4, thorough <=6) of the ID universe {0,1,2,3,5,9,50,100} as attribute-group IDs and metadata IDs in every textual order (thorough, size >4: reverse, rotations, adjacent swaps): printed definitions and module lists ascend by ID. distinct = distinct pairs / permuted inputs / names."
 	maxLen, maxDefs := 3, 4
 	if !c.Quick() {
 		maxLen, maxDefs = 4, 5
@@ -225,6 +225,7 @@ func runC20(c *fw.Check) {
 	c20modules(c, maxDefs)
 	// 5. rotations / reversal / adjacent swaps of the fragments of generated modules.
 	c20sectionOrder(c)
+	c20idOrder(c)
 	c20generated(c)
 }
 
